@@ -97,6 +97,25 @@ Theorem Get_ma_q (Q : @mval F) (v : out (@quantity F)) (w : Z) :
   flatten (eval c (g_ma_q_get c) [("self", MRec [("input_values", Q); ("value", m_out VQ v); ("window", m_t w)])])
   = Ok (ONorm (m_out VQ v) [("self", MRec [("input_values", Q); ("value", m_out VQ v); ("window", m_t w)])]).
 Proof. reflexivity. Qed.
+
+(* small helpers: Datum::replace_if_older_than (C03), TerminalData -> Datum<Command> / Datum<State> (C20's actuators use them),
+   Time as its own TimeGetter *)
+Theorem Helper_replace_if_older_than (d d' : datum (@pay F)) :
+  run_fn c (g_datum_replace_if_older_than c) (m_dat pv d) [("maybe_replace_with", m_dat pv d')]
+  = Some (Ok (m_dat pv (fst (replace_if_older_than d d')), MV (VB (snd (replace_if_older_than d d'))))).
+Proof. destruct d as [t x], d' as [t' x']. unfold replace_if_older_than. cbn [d_time d_val]. destruct x, x'; mr_exec. Qed.
+Definition m_tdv (t : Z) (k : option (@command F)) (x : option (@state F)) : @mval F :=
+  MRec [("command", m_opt (fun q => MV (VC q)) k); ("state", m_opt (fun q => MV (VS q)) x); ("time", m_t t)].
+Theorem Helper_tdata_to_command t k x :
+  flatten (eval c (g_tdata_to_command c) [("value", m_tdv t k x)])
+  = Ok (ONorm (match k with Some q => MOk (m_dat VC (mkDatum t q)) | None => MErr MTup0 end) [("value", m_tdv t k x)]).
+Proof. destruct k; reflexivity. Qed.
+Theorem Helper_tdata_to_state t k x :
+  flatten (eval c (g_tdata_to_state c) [("value", m_tdv t k x)])
+  = Ok (ONorm (match x with Some q => MOk (m_dat VS (mkDatum t q)) | None => MErr MTup0 end) [("value", m_tdv t k x)]).
+Proof. destruct x; reflexivity. Qed.
+Theorem Helper_time_get (t : Z) : run_fn c (g_time_get c) (m_t t) [] = Some (Ok (m_t t, MOk (m_t t))).
+Proof. reflexivity. Qed.
 End CtorStreams.
 Print Assumptions Ctor_pid.
 Print Assumptions Ctor_cpid.
@@ -121,3 +140,7 @@ Print Assumptions Get_deriv.
 Print Assumptions Get_integ.
 Print Assumptions Get_ma.
 Print Assumptions Get_ma_q.
+Print Assumptions Helper_replace_if_older_than.
+Print Assumptions Helper_tdata_to_command.
+Print Assumptions Helper_tdata_to_state.
+Print Assumptions Helper_time_get.
